@@ -10,5 +10,6 @@ TESTS = [
 ASSUMPTIONS = [
     "nfs41: RFC 8881 2.10.6.1.3.1 only obliges the server to detect a false retry where it can; slot sequence IDs start at 1 in every new session and cannot be chosen by the client, so their wrap-around (2^32 requests on one slot) is reached through the verif-tagged hook VerifSetSlotSequenceID: it sets the last processed sequence ID of an idle slot to 2^32-3..2^32-1 or 0 and discards the slot's cached reply, i.e. it leaves the slot as 2^32 well-formed requests without a retained reply would (the model expects NFS4ERR_SEQ_MISORDERED for a retransmission of that sequence ID, as for a fresh slot); likewise the seqid of a live state ID of a client without a request in flight is placed at 2^32-3..2^32-1 through VerifSetStateIDSeqID; the CREATE_SESSION sequence ID is drawn by the server from its random number generator, which the harness owns: it is made to start at 2^32-3..2^32-1 and 0 so that CREATE_SESSION, its replay and the misordered variants straddle the wrap-around",
     "nfs41: 'content differs' (NFS4ERR_SEQ_FALSE_RETRY required) is asserted only for differences in the number or types of the operations covered by the cached reply, which is what the code and the upstream FalseRetries tests document as checked; a retry that differs in arguments only must be answered with that error or with the original's cached reply, and must never execute",
+    "nfs41: a COMPOUND under SEQUENCE that reaches an operation NFSv4.1 does not have (RENEW, OPEN_CONFIRM, SETCLIENTID, SETCLIENTID_CONFIRM, RELEASE_LOCKOWNER, literal OP_ILLEGAL) must end there with result opcode OP_ILLEGAL and NFS4ERR_OP_ILLEGAL (RFC 8881 15.2/18, the default branch of the operation switch of opSequence, the upstream SETCLIENTID-under-SEQUENCE test; for the five NFSv4.0-only operations the pair <operation>/NFS4ERR_NOTSUPP of the RFC 8881 error table is accepted as well); its reply is a reply like any other for retransmissions and in-flight duplicates; for false retries the documented exemption applies: a retained OP_ILLEGAL result fits any requested operation at its position (so a retry that differs only there or behind it gets NFS4ERR_SEQ_FALSE_RETRY or the retained reply), whereas a requested OP_ILLEGAL/NFSv4.0-only operation fits no retained result of another type (NFS4ERR_SEQ_FALSE_RETRY required)",
     "nfs41: a retransmission of a request sent without sa_cachethis may be answered either byte-identically or with the documented NFS4ERR_RETRY_UNCACHED_REP form (original SEQUENCE result + second operation failing with that status)",
 ]
